@@ -204,3 +204,29 @@ def gen_env_roles(rnd):
     d4 = S.UnionDef(arms)
     d5 = S.StructDef([M("plain", I(1)), M("opt", R(4)), M("plain", R(3))])
     return [d1, d2, d3, d4, d5]
+
+
+def gen_env_sizers(rnd):
+    """One struct whose externally sized arrays sit in later parts than their
+    sizers: sizers of every width at random earlier positions, dynamic arrays
+    in between, scalars of every alignment around them."""
+    I, M = S.Int, S.Mem
+    n_sizers = rnd.randint(1, 2)
+    ms = []
+    sizer_pos = []
+    total = rnd.randint(4, 7)
+    for j in range(1, total + 1):
+        r = rnd.random()
+        if len(sizer_pos) < n_sizers and (r < 0.35 or j == 1):
+            ms.append(M("plain", I(rnd.choice([1, 2, 4, 8]))))
+            sizer_pos.append(j)
+        elif r < 0.6:
+            ms.append(M("dyn", rnd.choice([I(1), I(2), I(4), I(8), S.BYTE])))
+        elif r < 0.8 and sizer_pos:
+            ms.append(M("ext", rnd.choice([I(1), I(2), I(4), I(8), S.BYTE]), 0, rnd.choice(sizer_pos)))
+        else:
+            ms.append(M("plain", I(rnd.choice([1, 2, 4, 8]))))
+    ms.append(M("ext", rnd.choice([I(1), I(2), I(4)]), 0, sizer_pos[0]))
+    if rnd.random() < 0.5:
+        ms.append(M("plain", I(rnd.choice([1, 2, 8]))))
+    return [S.StructDef(ms)]
